@@ -21,21 +21,55 @@ VOCAB = [
 
 
 def expected(lines):
-    text = '\n'.join(l.strip(' ') for l in lines)
+    text = '\n'.join(l.lstrip(' \t').rstrip(' ') for l in lines)
     text = text.replace('&', '&amp;').replace('<', '&lt;').replace('>', '&gt;')
     return '<p>%s</p>\n' % text
 
 
-def check(ctx, lines, source):
+FORMS = ('str', 'str-no-final-newline', 'list-terminated', 'list-unterminated')
+PRIOR = ('none', 'aborted-inline-tokenization', 'renderer-without-code-spans', 'document-with-code-spans-and-references')
+
+
+def prior_use(kind):
+    """An earlier use of the library in the same process; none of them may leave anything behind (they do not on the
+    repaired tree: C11 decides that; here the point is that prose passes through whatever came before)."""
+    from mistletoe import Document, HtmlRenderer, span_token
+    if kind == 'aborted-inline-tokenization':
+        try:
+            span_token.tokenize_inner('`code` and a [full][reference] *x*')    # no Document: the reference lookup raises
+        except Exception:  # noqa
+            pass
+    elif kind == 'renderer-without-code-spans':
+        with HtmlRenderer() as r:
+            span_token.remove_token(span_token.InlineCode)
+            r.render(Document('backticks are `literal` here and ``here``\n'))
+    elif kind == 'document-with-code-spans-and-references':
+        mt.html('[r]: /u "t"\n\n`a` [r] **b** <i>x</i> ~~s~~ ![i](/s)\n\n- > ```\n  > c\n')
+
+
+def supply(lines, form):
+    if form == 'str':
+        return '\n'.join(lines) + '\n'
+    if form == 'str-no-final-newline':
+        return '\n'.join(lines)
+    if form == 'list-terminated':
+        return [l + '\n' for l in lines]
+    return list(lines)
+
+
+def check(ctx, lines, source, form='str', prior='none'):
     reason = inert.paragraph_reason(lines)
     if reason:
         ctx.count('rejected_by_predicate', reason)
         return
     ctx.ev()
     src = '\n'.join(lines) + '\n'
-    case = {'lines': lines, 'source': source}
+    case = {'lines': lines, 'source': source, 'form': form, 'prior': prior}
+    ctx.count('input_form', form)
+    ctx.count('prior_use', prior)
     try:
-        got = mt.html(src)
+        prior_use(prior)
+        got = mt.html(supply(lines, form))
     except Exception as e:  # noqa
         ctx.violation('raises', mt.exc_site(e), case, traceback=mt.tb_text(e))
         return
@@ -52,8 +86,9 @@ def check(ctx, lines, source):
                 ctx.counters['token_position'][pos + ('-linestart' if j == 0 else '')] += 1
 
 
-def passes(lines):
-    return mt.html('\n'.join(lines) + '\n') == expected(lines)
+def passes(lines, form='str', prior='none'):
+    prior_use(prior)
+    return mt.html(supply(lines, form)) == expected(lines)
 
 
 def classify(clause, key, case, detail):
@@ -68,7 +103,7 @@ def classify(clause, key, case, detail):
         return None
     # neutraliser: move the marker away from the start of the line, keeping everything else
     neutral = [('w ' + l.lstrip(' ')) if trig.match(l) else l for l in lines]
-    if inert.paragraph_reason(neutral) is None and passes(neutral):
+    if inert.paragraph_reason(neutral) is None and passes(neutral, case.get('form', 'str'), case.get('prior', 'none')):
         return 'C14-unicode-whitespace'
     return None
 
@@ -93,10 +128,19 @@ def make_line(rng, k):
         # a number followed by '.' or ')' - a list marker only where 5.2 says so (the predicate decides)
         toks.insert(0, '%d%s' % (rng.choice((0, 1, 2, 9, 10, 11, 21, 41, 99, 100, 101, 1991, 2021, rng.randint(0, 99999))), rng.choice('.)')))
     line = ' '.join(toks)
-    indent = rng.choice((0, 0, 0, 1, 2, 3)) if k == 0 else rng.choice((0, 0, 0, 1, 2, 3, 4, 5, 8))
     if rng.random() < 0.1:
         line += ' '
+    if k > 0 and rng.random() < 0.15:
+        # continuation line indented by four or more columns, spelled with spaces and tabs: whatever it starts with is paragraph text
+        if rng.random() < 0.6:
+            line = rng.choice(BLOCKISH) + (' ' + line if rng.random() < 0.7 else '')
+        return rng.choice(DEEP) + line
+    indent = rng.choice((0, 0, 0, 1, 2, 3)) if k == 0 else rng.choice((0, 0, 0, 1, 2, 3, 4, 5, 8))
     return ' ' * indent + line
+
+
+BLOCKISH = ['>', '> x', '>x', '- x', '+ x', '* x', '-', '# x', '## x', '#', '1. x', '1) x', '7. x', '***', '---', '___', '* * *', '===', '=', '--', '~~~', '~~~x', '| x']
+DEEP = ['    ', '     ', '        ', '\t', ' \t', '  \t', '   \t', '\t ', '\t\t', '\t   ', '    \t']
 
 
 def plan(tier):
@@ -124,6 +168,13 @@ def run(ctx):
             check(ctx, [t], 'exhaustive-1')
             check(ctx, ['text', t], 'exhaustive-1-second-line')
             check(ctx, ['text', '     ' + t], 'exhaustive-1-second-line')
+            check(ctx, ['text', '\t' + t], 'exhaustive-1-second-line')
+    for b in BLOCKISH:
+        for d in DEEP:
+            idx += 1
+            if idx % ctx.nshards == ctx.shard:
+                check(ctx, ['text', d + b], 'deep-indented-blockish')
+                check(ctx, ['text', d + b, 'more'], 'deep-indented-blockish')
     pairs = itertools.product(VOCAB, repeat=2)
     for a, b in pairs:
         idx += 1
@@ -139,7 +190,7 @@ def run(ctx):
         if ctx.out_of_time():
             break
         lines = [make_line(rng, i) for i in range(rng.choice((1, 1, 2, 2, 3, 4)))]
-        check(ctx, lines, 'random')
+        check(ctx, lines, 'random', rng.choice(FORMS) if rng.random() < 0.4 else 'str', rng.choice(PRIOR) if rng.random() < 0.1 else 'none')
         if k < 3:
             ctx.sample({'lines': lines})
 
@@ -154,13 +205,13 @@ def finalize(m, tier):
                 '(quick) or all (thorough) token pairs, random longer lines with 0-3 / 0-8 spaces of indentation); only paragraphs '
                 'accepted by the independent inertness predicate are evaluated; distinct_nontrivial = distinct accepted paragraphs' % len(VOCAB),
         'inconclusive': inconclusive,
-        'extra': {'rejected_by_predicate': m.c('rejected_by_predicate'), 'token_position_coverage': m.c('token_position'),
+        'extra': {'input_forms': m.c('input_form'), 'prior_uses': m.c('prior_use'), 'rejected_by_predicate': m.c('rejected_by_predicate'), 'token_position_coverage': m.c('token_position'),
                   'vocabulary_size': len(VOCAB)},
     }
 
 
 def replay(ctx, case):
-    check(ctx, case['lines'], case.get('source', 'replay'))
+    check(ctx, case['lines'], case.get('source', 'replay'), case.get('form', 'str'), case.get('prior', 'none'))
 
 
 import os as _os  # noqa: E402
